@@ -364,15 +364,18 @@ def _snapshot_obs(sim, name):
     }
 
 
-def _valid(ex, cond):
-    """cond holds on every model of the path condition?  returns (True, None) or (False, model)"""
+def _valid(ex, cond, under=None):
+    """cond holds on every model of the path condition (and of `under`, if given)?  returns (True, None) or (False, model)"""
     cond = mk_bool(cond)
     if cond is True:
         return True, None
+    extra = [] if under is None or under is True else [under]
+    if under is False:
+        return True, None
     if cond is False:
-        okk, m = ex.check_sat()
-        return False, m
-    sat, m = ex.check_sat(z3.Not(cond))
+        okk, m = ex.check_sat(*extra)
+        return (not okk), m
+    sat, m = ex.check_sat(z3.Not(cond), *extra)
     return (not sat), m
 
 
@@ -504,7 +507,14 @@ def check_path(ex, F, unit, sim, kind, r, res, known_classes):
     # ---------------- sender mapping (C01): everything between SND.UNA and SND.NXT is still on the retransmission queue
     res.obligations += 1
     if info['arr'] == 'Ok':
-        bad = queue_covers_unacked(ex, F, post)
+        # only for acknowledgments a conforming peer can send: SND.UNA <= SEG.ACK <= SND.NXT (anything else is not produced by
+        # loss, duplication, reordering or delay of legitimate traffic, which is what C01 quantifies over)
+        conforming_ack = True
+        if 'ACK' in flags:
+            _, _, _, fack, _, _, _, _, _ = info['forged']
+            conforming_ack = ex.binop('Le', ex.binop('Sub', fack, pre['snd']['una'], False),
+                                      ex.binop('Sub', pre['snd']['nxt'], pre['snd']['una'], False), False)
+        bad = queue_covers_unacked(ex, F, post, under=conforming_ack)
         if bad is not None:
             what, m = bad
             res.violations.append(mk_violation(ex, sim, unit, f'c01:retransmission-queue-does-not-cover-unacked:{pre["state"]}',
@@ -541,31 +551,37 @@ def check_path(ex, F, unit, sim, kind, r, res, known_classes):
                             'state': f'{pre["state"]}->{post["state"]}', 'result': info['arr']})
 
 
-def queue_covers_unacked(ex, F, obs):
-    """the retransmission queue is contiguous, starts at or before SND.UNA (a partially acknowledged segment stays), and ends at
-    SND.NXT; it is empty only when SND.UNA == SND.NXT.  returns None or (description, model)"""
+def queue_covers_unacked(ex, F, obs, under=None):
+    """the retransmission queue covers the unacknowledged sequence space: it starts at or before SND.UNA (a partially
+    acknowledged segment stays), its entries are contiguous (a SYN that was re-sent as SYN-ACK occupies the same sequence
+    number as the SYN before it), and it ends at SND.NXT; it is empty only when SND.UNA == SND.NXT.
+    returns None or (description, model)"""
     una, nxt = obs['snd']['una'], obs['snd']['nxt']
     q = obs['retx']
     if not q:
-        okv, m = _valid(ex, ex.binop('Eq', una, nxt, False))
+        okv, m = _valid(ex, ex.binop('Eq', una, nxt, False), under)
         return None if okv else ('queue is empty although SND.UNA != SND.NXT', m)
     pos = None
+    prev_syn_seq = None
     for i, tx in enumerate(q):
         hv, txt = seg_parts(F, tx.f[F.tx['segment']])
+        is_syn = bool(hv.ctl.conc and hv.ctl.v & SYN)
         ln = ex.binop('Add', ex.cast(txt.length(ex), 'u32', 'IntToInt'),
-                      U32((1 if hv.ctl.conc and hv.ctl.v & SYN else 0) + (1 if hv.ctl.conc and hv.ctl.v & FIN else 0)), False)
+                      U32((1 if is_syn else 0) + (1 if hv.ctl.conc and hv.ctl.v & FIN else 0)), False)
         if i == 0:
-            # first.seq <= una < first.seq + len   (or the whole first entry is still unacknowledged)
             d = ex.binop('Sub', una, hv.seq, False)
-            okv, m = _valid(ex, ex.binop('Lt', d, ln, False))
+            okv, m = _valid(ex, ex.binop('Lt', d, ln, False), under)
             if not okv:
                 return ('SND.UNA does not lie inside the first queued segment', m)
         else:
-            okv, m = _valid(ex, ex.binop('Eq', hv.seq, pos, False))
-            if not okv:
-                return (f'queued segment {i} does not start where segment {i - 1} ends', m)
+            same_syn = is_syn and prev_syn_seq is not None and _valid(ex, ex.binop('Eq', hv.seq, prev_syn_seq, False), under)[0]
+            if not same_syn:
+                okv, m = _valid(ex, ex.binop('Eq', hv.seq, pos, False), under)
+                if not okv:
+                    return (f'queued segment {i} does not start where segment {i - 1} ends', m)
+        prev_syn_seq = hv.seq if is_syn else None
         pos = ex.binop('Add', hv.seq, ln, False)
-    okv, m = _valid(ex, ex.binop('Eq', pos, nxt, False))
+    okv, m = _valid(ex, ex.binop('Eq', pos, nxt, False), under)
     return None if okv else ('the last queued segment does not end at SND.NXT', m)
 
 
